@@ -1023,13 +1023,14 @@ Ltac far_tac :=
 (* BlochSphereRotation.__eq__ is reflexive over the reals *)
 Lemma bsr_eq_refl_RNum q ax a p : bsr_eq RNum q ax a p q ax a p = true.
 Proof.
-  unfold bsr_eq. rewrite Z.eqb_refl. cbn [negb].
+  unfold bsr_eq.
   assert (H1 : nleb RNum (nabs RNum (nsub RNum p p)) (atol RNum) = true).
   { change (Rleb (Rabs (p - p)) (atol RNum) = true). apply Rleb_true.
     rewrite atol_RNum. replace (p - p) with 0 by ring. rewrite Rabs_R0. lra. }
-  rewrite H1, close_axis_refl.
+  cbv zeta. rewrite H1.
   destruct (nltb RNum (nabs RNum a) (atol RNum) && nltb RNum (nabs RNum a) (atol RNum));
     [reflexivity|].
+  rewrite Z.eqb_refl. cbn [negb]. rewrite close_axis_refl.
   cbn [andb].
   change (Rltb (Rabs (a - a)) (atol RNum) = true). apply Rltb_true.
   rewrite atol_RNum. replace (a - a) with 0 by ring. rewrite Rabs_R0. lra.
@@ -1042,12 +1043,13 @@ Lemma bsr_eq_far q ax a p q2 ax2 a2 p2 :
   close_axis RNum ax ax2 = false -> close_axis RNum ax (neg_axis RNum ax2) = false ->
   bsr_eq RNum q ax a p q2 ax2 a2 p2 = false.
 Proof.
-  intros Ha H1 H2. unfold bsr_eq. rewrite H1, H2.
-  destruct (negb (q =? q2)%Z); [reflexivity|].
+  intros Ha H1 H2. unfold bsr_eq. cbv zeta.
   assert (H3 : nltb RNum (nabs RNum a) (atol RNum) = false).
   { change (Rltb (Rabs a) (atol RNum) = false). apply Rltb_false.
     rewrite atol_RNum. exact Ha. }
-  rewrite H3. reflexivity.
+  rewrite H3. cbn [andb].
+  destruct (negb (q =? q2)%Z); [reflexivity|].
+  rewrite H1, H2. reflexivity.
 Qed.
 
 Lemma PI_not_small : / 10000000 <= Rabs PI.
